@@ -508,7 +508,10 @@ impl Session {
                 || self
                     .recv_window
                     .received_at
-                    .checked_add(Duration::from_secs(ack_timeout_secs as _))
+                    // The stand-alone ACK must be on the wire *before* the ACK timeout expires at
+                    // the peer, and we are polled only once per second: arm it at a third of the
+                    // timeout (the spec asks for a send-ack timer of less than one-half)
+                    .checked_add(Duration::from_millis(ack_timeout_secs as u64 * 1000 / 3))
                     .map(|expires| expires <= now)
                     .unwrap_or(false))
     }
